@@ -118,7 +118,7 @@ Qed.
 
 Lemma add_component_atomic_fresh fl pn name node_id spec_given nic sub_ids cat pure g fresh s' e :
   ids_fresh g (component_ids node_id cat fresh) = true ->
-  op_add_component fl pn name node_id spec_given nic sub_ids cat pure (mkSt g fresh) = (s', Err e) ->
+  op_add_component false fl pn name node_id spec_given nic sub_ids cat pure (mkSt g fresh) = (s', Err e) ->
   sg s' = g.
 Proof.
   intros Hfresh H. unfold op_add_component in H.
@@ -169,6 +169,8 @@ Proof.
       [rewrite <- G1, <- G3, <- G4; exact (no_mut_opt_raise _ _ _ _ H)|].
     assert (s5 = s4) as -> by (destruct pure; simpl in H1; unfold raise, ret in H1; inversion H1; reflexivity).
     clear H1.
+    apply bind_err_cases in H as [H|(s6 & u0 & H0 & H)]; [unfold ret in H; discriminate|].
+    apply ret_ok in H0 as [-> _].
     assert (G : sg s4 = sg s1) by congruence.
     (* first mutation: on failure nothing changed; on success nothing fails any more *)
     apply bind_err_cases in H as [H|(s5 & u6 & H1 & H)].
@@ -221,6 +223,8 @@ Proof.
       [rewrite <- G1; exact (no_mut_opt_raise _ _ _ _ H)|].
     assert (s5 = s1) as -> by (destruct pure; simpl in H1; unfold raise, ret in H1; inversion H1; reflexivity).
     clear H1.
+    apply bind_err_cases in H as [H|(s6 & u0 & H0 & H)]; [unfold ret in H; discriminate|].
+    apply ret_ok in H0 as [-> _].
     apply bind_err_cases in H as [H|(s5 & u6 & H1 & H)].
     { rewrite <- G1. exact (atomic_mutate (fun _ => True) _ _ _ _ I H). }
     exfalso.
